@@ -11,6 +11,7 @@
 #include <stdio.h>
 #include <string.h>
 
+namespace sim { void setSemTimedwaitMissing(bool); uint64_t threadCreateFailureCount(); }
 using namespace sim;
 
 enum Prim { P_MUTEX = 0, P_SEM, P_SIGNAL, P_MONITOR, P_THREAD, P_N };
@@ -90,7 +91,9 @@ static void worker(void* a) {
     case MO_SET: if (C.prim == P_MONITOR) { int k = beginOp(w, MO_SET, 0); C.mo->set(); endOp(k, 1); } break;
     case MO_WAIT: if (C.prim == P_MONITOR) { Monitor::Guard g(*C.mo); int k = beginOp(w, MO_WAIT, 0); bool ok = g.wait(); endOp(k, ok); } break;
     case MO_WAITT: if (C.prim == P_MONITOR) { Monitor::Guard g(*C.mo); int k = beginOp(w, MO_WAITT, t); bool ok = g.wait(t); endOp(k, ok); } break;
-    case TH_START: if (C.prim == P_THREAD) { Ctx::Thr& th = C.thr[w]; if (!th.started) { th.th = new Thread; th.ret = 1000 + op.a[0] % 1000; th.ended = false; th.started = true; int k = beginOp(w, TH_START, th.ret); bool ok = th.th->start(threadProc, &th); endOp(k, ok); if (!ok) fail("C11/thread/start_failed", "Thread::start returned false"); } } break;
+    case TH_START: if (C.prim == P_THREAD) { Ctx::Thr& th = C.thr[w]; if (!th.started) { th.th = new Thread; th.ret = 1000 + op.a[0] % 1000; th.ended = false; th.started = true; uint64_t f0 = threadCreateFailureCount(); auto faultedThreadCreate = [&]() { return threadCreateFailureCount() != f0; }; int k = beginOp(w, TH_START, th.ret); bool ok = th.th->start(threadProc, &th); endOp(k, ok);
+      /* creation may fail for lack of resources (injected): the caller tries again, and a Thread object that was never started must still be startable */
+      for (int tries = 0; !ok; ++tries) { if (!faultedThreadCreate() || tries >= 50) fail("C11/thread/start_failed", tries ? "Thread::start keeps returning false after a failed creation although threads can be created again" : "Thread::start returned false"); probe("thread_start_retried"); int k2 = beginOp(w, TH_START, th.ret); ok = th.th->start(threadProc, &th); endOp(k2, ok); } } } break;
     case TH_JOIN: if (C.prim == P_THREAD) { Ctx::Thr& th = C.thr[w]; if (th.started) { int k = beginOp(w, TH_JOIN, th.ret); uint r = th.th->join(); endOp(k, (int)r); if (!th.ended) fail("C11/thread/join_before_end", "join returned before the thread function finished"); delete th.th; th.th = 0; th.started = false; } } break;
     }
   }
@@ -98,7 +101,6 @@ static void worker(void* a) {
   if (C.prim == P_THREAD && C.thr[w].started) { Ctx::Thr& th = C.thr[w]; int k = beginOp(w, TH_JOIN, th.ret); uint r = th.th->join(); endOp(k, (int)r); if (!th.ended) fail("C11/thread/join_before_end", "join returned before the thread function finished"); delete th.th; th.th = 0; th.started = false; }
 }
 
-namespace sim { void setSemTimedwaitMissing(bool); }
 static void mainTask(void*) {
   setSemTimedwaitMissing(simdrv::knob(*C.spec, "no_sem_timedwait", 0) != 0);
   const RunSpec& s = *C.spec;
@@ -231,6 +233,7 @@ static void generate(RunSpec& s, int tier) {
   s.knobs["mem_switch_log2"] = memk[r(5)]; s.knobs["sync_switch_log2"] = synck[r(4)];
   static const int sp[] = {0, 0, 5, 30}; s.knobs["spurious_pct"] = sp[r(4)]; s.knobs["wakeorder_pct"] = r(2) ? 50 : 0; s.knobs["eintr_pct"] = r(3) == 0 ? 10 : 0;
   s.knobs["rt_phase_ms"] = r(1000);
+  s.knobs["thread_fail_pct"] = (prim == P_THREAD && r(2)) ? 25 : 0;
   s.knobs["own_mutex"] = (prim == P_MUTEX && r(2)) ? 1 + r(255) : 0;
   s.knobs["no_sem_timedwait"] = (prim == P_SEM && r(5) == 0) ? 1 : 0;      /* a fifth of the semaphore runs: platform without sem_timedwait (polling fallback) */
   int maxOps = 6, total = 0;
@@ -255,7 +258,7 @@ static void generate(RunSpec& s, int tier) {
 static Result execute(const RunSpec& s, bool keepLog) {
   Config cfg;
   cfg.mem_switch_log2 = (int)simdrv::knob(s, "mem_switch_log2", 6); cfg.sync_switch_log2 = (int)simdrv::knob(s, "sync_switch_log2", 2);
-  cfg.rate[K_SPURIOUS] = simdrv::knob(s, "spurious_pct", 0) / 100.0; cfg.rate[K_WAKEORDER] = simdrv::knob(s, "wakeorder_pct", 0) / 100.0; cfg.rate[K_EINTR] = simdrv::knob(s, "eintr_pct", 0) / 100.0;
+  cfg.rate[K_SPURIOUS] = simdrv::knob(s, "spurious_pct", 0) / 100.0; cfg.rate[K_WAKEORDER] = simdrv::knob(s, "wakeorder_pct", 0) / 100.0; cfg.rate[K_EINTR] = simdrv::knob(s, "eintr_pct", 0) / 100.0; cfg.rate[K_THREADFAIL] = simdrv::knob(s, "thread_fail_pct", 0) / 100.0;
   cfg.real_phase_ns = simdrv::knob(s, "rt_phase_ms", 0) * 1000000LL;
   cfg.step_budget = 400000; cfg.keep_log = keepLog;
   C.spec = &s; C.prim = (int)simdrv::knob(s, "prim", 0) % P_N; C.ntasks = (int)simdrv::knob(s, "ntasks", 2); if (C.ntasks < 1) C.ntasks = 1; if (C.ntasks > 4) C.ntasks = 4;
